@@ -40,7 +40,7 @@ Proof. exact build_index_spec. Qed.
 Print Assumptions C08_index_first_occurrence.
 
 Theorem C08_table_is_relation : forall cfg fuel I c t,
-  In c (compute_compatible_concrete_types cfg fuel I (build_index (ci_xreg I)) t) <-> accepts cfg fuel I c t = true.
+  In c (compute_compatible_concrete_types cfg fuel I (ci_xreg I) (build_index (ci_xreg I)) t) <-> accepts cfg fuel I c t = true.
 Proof. exact table_is_relation. Qed.
 Print Assumptions C08_table_is_relation.
 
